@@ -16,6 +16,10 @@ import (
 )
 
 type gthread struct {
+	waitRecv []*chanV // channels this goroutine is blocked receiving from
+	waitSeq  int
+	gotCh    *chanV // direct hand-off: a sender gave its value to this blocked receiver
+	gotVal   value
 	id      int
 	resume  chan bool // true: run, false: abort
 	done    bool
@@ -227,6 +231,54 @@ func (m *machine) visibleOp(what string) {
 	if next != nil && next != ts.cur {
 		m.switchTo(next)
 	}
+}
+
+// handoff implements Go's channel semantics for a send while receivers are
+// blocked: the value goes directly to the longest-waiting receiver, which then
+// owns it even before it is scheduled again.
+func (m *machine) handoff(ch *chanV, v value) bool {
+	if !m.multi() {
+		return false
+	}
+	var best *gthread
+	for _, t := range m.thr.threads {
+		if t.done || t.gotCh != nil {
+			continue
+		}
+		for _, w := range t.waitRecv {
+			if w == ch && (best == nil || t.waitSeq < best.waitSeq) {
+				best = t
+			}
+		}
+	}
+	if best == nil {
+		return false
+	}
+	best.gotCh = ch
+	best.gotVal = copyVal(v)
+	best.waitRecv = nil
+	// happens-before: the send is ordered before the receive completes
+	m.thr.cur.tick()
+	best.vc = vcJoin(best.vc, m.thr.cur.vc)
+	return true
+}
+
+// blockRecv parks the current goroutine as a receiver on chans; returns the
+// channel and value handed over, or nil if it was woken for another reason.
+func (m *machine) blockRecv(what string, chans []*chanV, ready func() bool) (*chanV, value, bool) {
+	ts := m.ts()
+	me := ts.cur
+	ts.switches++
+	me.waitRecv = chans
+	me.waitSeq = ts.switches
+	ok := m.blockOn(what, func() bool { return me.gotCh != nil || ready() })
+	me.waitRecv = nil
+	if me.gotCh != nil {
+		ch, v := me.gotCh, me.gotVal
+		me.gotCh, me.gotVal = nil, nil
+		return ch, v, true
+	}
+	return nil, nil, ok
 }
 
 // blockOn parks the current thread until canRun holds; returns false when no
